@@ -23,6 +23,15 @@
  *  USA.
  */
 
+/*
+ * Read one 24-bit pixel in host byte order, byte by byte: a 4-byte load
+ * would be misaligned and would read one byte past the pixel (and past the
+ * end of the framebuffer for its last pixel).
+ */
+#define RFB_GET24(p) (rfbEndianTest \
+    ? ((uint32_t)(p)[0] | ((uint32_t)(p)[1] << 8) | ((uint32_t)(p)[2] << 16)) \
+    : ((uint32_t)(p)[2] | ((uint32_t)(p)[1] << 8) | ((uint32_t)(p)[0] << 16)))
+
 static void
 rfbInitOneRGBTable24 (uint8_t *table, int inMax, int outMax, int outShift,int swap);
 
